@@ -48,6 +48,21 @@ Theorem C15_safe_partial :
 Proof. exact safe_ok_all_defined. Qed.
 Print Assumptions C15_safe_partial.
 
+(* C15_safe in full under the hypothesis excluding exactly the two known shapes
+   (D26: member inside an @list/@set/@default value — flag false below;
+    D27: key whose expansion contains ':' without being an absolute, non-blank IRI):
+   success => the key is a keyword/alias or expands to an absolute IRI *)
+Theorem C15_safe :
+  forall (loader : string -> option json) (cf : nat) (E DS R C : Type) (B : backend E DS R C)
+         (d : json) (r : R),
+  merklize_doc loader cf B true d = Ok r ->
+  forall (p : path) (cn : ctx) (k : string),
+  occurs loader cf true empty_ctx "" false false [] d p cn k false ->
+  colon_not_absolute cn k = false ->
+  key_absolute cn k = true.
+Proof. exact safe_ok_all_absolute. Qed.
+Print Assumptions C15_safe.
+
 (* some undefined member (outside @list/@set/@default values) => never Ok *)
 Theorem C15_safe_rejects :
   forall (loader : string -> option json) (cf : nat) (E DS R C : Type) (B : backend E DS R C)
